@@ -54,7 +54,10 @@ sensitivity() {
     mkdir -p "$TMPROOT/root-$id"; cp "$VERIF/known_findings.json" "$TMPROOT/root-$id/"
     out=$(VERIF_REPO="$scratch" VERIF_ROOT="$TMPROOT/root-$id" "$VERIF/check" "$prop" quick 2>&1); st=$?
     rm -rf "$scratch"
-    if [ "$expect" = "True" ] && [ $st -ne 1 ]; then echo "SELFTEST-FAIL sensitivity: $id ($prop) not reported (exit $st)"; echo "$out" | tail -3; rc=2;
+    neutral=$(python3 -c 'import json,sys; print(json.load(open(sys.argv[1])).get("neutralised_by", ""))' "$d/meta.json")
+    if [ -n "$neutral" ]; then
+      if [ $st -ne 0 ]; then echo "SELFTEST-FAIL sensitivity: $id is recorded as neutralised by $neutral but the check exits $st"; rc=2; else echo "selftest sensitivity: $id ($prop): neutralised by fix $neutral, check exits 0 as expected"; fi
+    elif [ "$expect" = "True" ] && [ $st -ne 1 ]; then echo "SELFTEST-FAIL sensitivity: $id ($prop) not reported (exit $st)"; echo "$out" | tail -3; rc=2;
     else echo "selftest sensitivity: $id ($prop): exit $st $(echo "$out" | grep -c '^VIOLATION') violation line(s)"; fi
     rm -rf "$TMPROOT/root-$id"
   done
